@@ -2,6 +2,7 @@ import IpaVerif.Model.Util
 import IpaVerif.Model.Sharing
 import IpaVerif.Model.Mac
 import IpaVerif.Generated.PrimeFields
+import IpaVerif.Model.MacAtomic
 /-! Line-protocol handlers for property C04 (model side) and the spec-side oracle. Import-free. -/
 namespace IpaVerif.Driver.C04
 open IpaVerif.Util IpaVerif.Sharing IpaVerif.Mac
@@ -307,6 +308,17 @@ def implIds : String :=
 
 /-! ### handlers -/
 
+/-- `c04.race`, model side: ONE helper, `k` concurrent `accumulate_macs` calls through `MacAtomic.codeStep` (atomic or
+split, as the translator read the sources) under the round-robin schedule `0 … k-1, 0 … k-1` — every call gets its first
+step before any gets its second, the worst case for a read-modify-write. The helper's `(u, w)` must end as the sum of ALL
+contributions (then the honest batch validates: `concurrent_honest_validates`); a lost contribution leaves `T ≠ 0`. -/
+def raceModelOk (k : Nat) : Bool :=
+  let du : Nat → Nat := fun t => 7 * t + 3
+  let dw : Nat → Nat := fun t => t * t + 1
+  let sched := List.range k ++ List.range k
+  let s := IpaVerif.MacAtomic.run (IpaVerif.MacAtomic.codeStep (· + ·) du dw) (IpaVerif.MacAtomic.init 0 0) sched
+  s.u == IpaVerif.MacAtomic.seqSum (· + ·) du 0 k && s.w == IpaVerif.MacAtomic.seqSum (· + ·) dw 0 k && s.done.length == k
+
 def handle (toks : List String) : Option String :=
   match toks with
   | ["c04.acc1", f, a, x, m] => do
@@ -354,6 +366,9 @@ def handle (toks : List String) : Option String :=
   | "c04.prf" :: _ => some "judge"
   | "c04.adaptive" :: _ => some "judge"
   | "c04.rbatch" :: _ => some "judge"
+  | ["c04.race", _f, _who, t, r, _s, _rpb, _seed] => do
+      let t ← t.toNat?; let r ← r.toNat?
+      pure ("validated=" ++ toString (if raceModelOk t then r else 0) ++ " rounds=" ++ toString r)
   | _ => none
 
 /-! ### oracle (spec side, plain arithmetic) -/
@@ -499,6 +514,20 @@ def oracle (toks : List String) (impl : String) : Option String :=
             else "fails batches " ++ toString (i / rpb) ++ " and " ++ toString (j / rpb) ++ " (records " ++ toString i ++ ", " ++
               toString j ++ ") use the SAME key r = " ++ rs.getD i "" ++ ": a key opened by one batch's validation protects another batch")
       | _ => pure "fails malformed response"
+  | ["c04.race", _f, who, t, r, _s, rpb, _seed] => do
+      -- spec: nobody deviates, so EVERY round's batch validates on all three helpers, whatever the thread scheduling
+      let r ← r.toNat?
+      match (impl.splitOn " ").map (·.splitOn "=") with
+      | ["validated", n] :: ["rounds", r'] :: rest =>
+        let n ← n.toNat?; let r' ← r'.toNat?
+        if r' ≠ r then pure "fails malformed response" else
+        pure (if n == r && rest.isEmpty then "holds"
+          else "fails honest execution failed to validate: only " ++ toString n ++ " of " ++ toString r ++
+            " honest batches (" ++ rpb ++ " records each) validated when " ++ t ++ " threads of helper " ++ who ++
+            " accumulate MACs for distinct records of the batch concurrently" ++
+            (match rest with | [["first", f]] => " (first rejected round:helper:error = " ++ f ++ ")" | _ => "") ++
+            ": a contribution to (u, w) was lost, T = u - r*w is not a sharing of zero")
+      | _ => pure (if impl == "timeout" then "fails timeout" else "fails malformed response")
   | _ => none
 
 end IpaVerif.Driver.C04
